@@ -34,6 +34,13 @@ type vlFS struct {
 	gc   *atomic.Int64 // number of *_gc files opened (= files a GC pass decided to compact)
 	del  *atomic.Int32 // > 0 while a DeleteTimeRange call is in progress
 	win  *vlWindow     // guard rounds: signalled at the first file read inside the index delete
+	ren  *vlRenGate    // signalled when the directory of channel 9 is about to be renamed
+}
+
+type vlRenGate struct {
+	armed atomic.Bool
+	mu    sync.Mutex
+	ch    chan struct{}
 }
 
 type vlWindow struct {
@@ -70,6 +77,11 @@ func (f vlFS) Open(name string, flag int) (xfs.File, error) {
 
 func (f vlFS) Rename(a, b string) error {
 	f.nap(200)
+	if f.ren != nil && a == "9" && f.ren.armed.CompareAndSwap(true, false) {
+		// scheduler gate: DeleteChannel(9) is about to move the channel's directory away
+		close(f.ren.ch)
+		time.Sleep(2 * time.Millisecond)
+	}
 	return f.FS.Rename(a, b)
 }
 
@@ -78,7 +90,7 @@ func (f vlFS) Sub(name string) (xfs.FS, error) {
 	if err != nil {
 		return nil, err
 	}
-	return vlFS{FS: sub, seed: f.seed, n: f.n, gc: f.gc, del: f.del, win: f.win}, nil
+	return vlFS{FS: sub, seed: f.seed, n: f.n, gc: f.gc, del: f.del, win: f.win, ren: f.ren}, nil
 }
 
 type vlEvent struct {
@@ -100,12 +112,13 @@ type vlEvent struct {
 }
 
 type vlRound struct {
-	c      vsConc
-	db     *DB
-	fs     xfs.FS
-	seq    atomic.Int64
-	mu     sync.Mutex
-	events []vlEvent
+	chanBad atomic.Value
+	c       vsConc
+	db      *DB
+	fs      xfs.FS
+	seq     atomic.Int64
+	mu      sync.Mutex
+	events  []vlEvent
 	// written[c][t] = id of the only write that ever put a sample at t on channel c
 	wmu     sync.Mutex
 	written map[string]map[int]int
@@ -248,7 +261,8 @@ func vlRun(seed int64, round int, hang *atomic.Bool) (evs []vlEvent, fatal strin
 	}
 	inDel := &atomic.Int32{}
 	win := &vlWindow{ch: make(chan struct{})}
-	r := &vlRound{c: c, fs: vlFS{FS: xfs.NewMem(), seed: seed*131 + int64(round), n: &atomic.Int64{}, gc: &atomic.Int64{}, del: inDel, win: win}, written: map[string]map[int]int{"I": {}, "D": {}, "V": {}}}
+	ren := &vlRenGate{}
+	r := &vlRound{c: c, fs: vlFS{FS: xfs.NewMem(), seed: seed*131 + int64(round), n: &atomic.Int64{}, gc: &atomic.Int64{}, del: inDel, win: win, ren: ren}, written: map[string]map[int]int{"I": {}, "D": {}, "V": {}}}
 	db, err := Open(context.Background(), "", r.opts()...)
 	if err != nil {
 		return nil, "open: " + err.Error()
@@ -468,28 +482,41 @@ func vlRun(seed int64, round int, hang *atomic.Bool) (evs []vlEvent, fatal strin
 	go func() { // unrelated channel create / delete
 		defer bg.Done()
 		<-start
-		for i := 0; i < 3; i++ {
+		x := Channel{Key: 9, Name: "X", DataType: telem.TimeStampT, IsIndex: true}
+		for i := 0; i < 4; i++ {
 			r.log(vlEvent{Ev: "call", P: "c", Op: "chan"})
-			e1 := db.CreateChannel(ctx, Channel{Key: 9, Name: "X", DataType: telem.TimeStampT, IsIndex: true})
+			e1 := db.CreateChannel(ctx, x)
+			// a second goroutine creates the same channel while DeleteChannel is moving its
+			// directory away (gate in the file-system wrapper; on a database that serialises
+			// the two, the create simply waits for the delete)
+			ren.ch = make(chan struct{})
+			ren.armed.Store(true)
+			raced := make(chan error, 1)
+			go func(gate chan struct{}) {
+				select {
+				case <-gate:
+				case <-time.After(20 * time.Millisecond):
+				}
+				raced <- db.CreateChannel(ctx, x)
+			}(ren.ch)
 			e2 := db.DeleteChannel(9)
+			<-raced
+			ren.armed.Store(false)
+			// both calls returned: whatever their order was, a channel 9 that exists is usable
+			if _, err := db.RetrieveChannel(ctx, 9); err == nil {
+				ts := c.ts(27) + telem.TimeStamp(1000+i)
+				if err := db.Write(ctx, ts, telem.UnaryFrame[ChannelKey](9, telem.NewSeriesV[telem.TimeStamp](ts))); err != nil {
+					r.chanBad.Store(fmt.Sprintf("channel 9 exists after a create raced a delete of it, but cannot be written: %v", err))
+				}
+			}
+			_ = db.DeleteChannel(9)
 			res := "ok"
 			if e1 != nil || e2 != nil {
 				res = fmt.Sprintf("err:%v/%v", e1, e2)
 			}
 			r.log(vlEvent{Ev: "ret", P: "c", Res: res})
 		}
-	}()
-	bg.Add(1)
-	go func() { // a second goroutine deleting / re-creating the SAME unrelated channel
-		defer bg.Done()
-		<-start
-		for i := 0; i < 4; i++ {
-			r.log(vlEvent{Ev: "call", P: "x", Op: "chan"})
-			_ = db.DeleteChannel(9)
-			runtime.Gosched()
-			_ = db.CreateChannel(ctx, Channel{Key: 9, Name: "X", DataType: telem.TimeStampT, IsIndex: true})
-			r.log(vlEvent{Ev: "ret", P: "x", Res: "ok"})
-		}
+		_ = db.CreateChannel(ctx, x) // left in place for the in-memory / reopen comparison below
 	}()
 	done := make(chan struct{})
 	go func() { wg.Wait(); close(stop); bg.Wait(); close(done) }()
@@ -516,6 +543,9 @@ func vlRun(seed int64, round int, hang *atomic.Bool) (evs []vlEvent, fatal strin
 	// the channel two goroutines created and deleted concurrently: whatever the serial order
 	// was, the database's view of it must be self-consistent - if it exists it is usable,
 	// and close + reopen shows the same
+	if m := r.chanBad.Load(); m != nil {
+		return nil, "CHAN: " + m.(string)
+	}
 	_, xerr := db.RetrieveChannel(ctx, 9)
 	xMem := xerr == nil
 	xTS := c.ts(27) + 12345
